@@ -310,3 +310,11 @@ pub fn program_has_co_cycle(p: &Program) -> bool {
     }
     false
 }
+
+/// An implied-bound clause of this program can introduce an existential variable when used backwards:
+/// `FromEnv(WC) :- FromEnv(T: Trait<?X>)` for a trait with parameters, or `FromEnv(WC) :- FromEnv(S<?X, T>)`
+/// for a struct with where-clauses and several parameters. (Qualifier of the recorded recursive-solver
+/// finding; the historical name of the qualifier is `env-with-trait-params`.)
+pub fn env_existential(p: &Program) -> bool {
+    p.traits.iter().any(|t| t.extra > 0) || p.ctors.iter().any(|c| !c.wcs.is_empty() && c.arity >= 2)
+}
